@@ -84,6 +84,22 @@ def run(res, replay=None, inflate=False):
                 continue
             buf = pre + img + post
             script = ["base %d" % len(pre), "size"] + (["ctrav"] if inflate else []) + decode_script(s, m, vtree_as_tree(v))
+            if inflate:
+                # cursor access member by member: each member of each level view is first peeked at
+                # (cursor_ops::dont_move) and then read, in schema order from an initialised cursor -- the peek at the
+                # FIRST group / data of a level has to locate it from the wire blockLength on its own
+                import c04
+                for (path, lv, val) in c04.level_views(s, m, v)[:10]:
+                    seq = []
+                    for (name, prim) in c04.member_ops(s, lv):
+                        sfx = (":" + prim) if prim else ""
+                        seq += [name + "m" + sfx, name + "p" + sfx]
+                    if seq:
+                        script.append("cur %s init %s" % (path, " ".join(seq)))
+                    # ... and without reading any field first
+                    tail = [x for x in seq if not x.startswith("f")]
+                    if tail and len(tail) != len(seq):
+                        script.append("cur %s init %s" % (path, " ".join(tail)))
             # choice getters of set fields (name-based visit): every declared choice with its own bit of the raw value
             choice_exp = {}
             for (cop, gop, choices) in set_choice_ops(s, m, vtree_as_tree(v)):
